@@ -4,6 +4,7 @@ package main
 
 import (
 	"fmt"
+	"go/ast"
 	"go/token"
 	"go/types"
 	"sort"
@@ -236,6 +237,10 @@ type SizeVerdict struct {
 	Note     string
 	Symbolic bool
 	L, S, E  *Term
+	Used     []string // constructor facts and premises the agreement relies on
+	// UsedBySize: facts the number of bytes PRODUCED depends on (beyond those the size function itself uses):
+	// a value that lacks them encodes to a different number of bytes
+	UsedBySize []string
 }
 
 // compareSize decides size/<kind>: sizeM ≡ sizeL and, for pre-sized buffers,
@@ -281,7 +286,17 @@ func (w *World) compareSize(k *Kind) *SizeVerdict {
 	if S.Equal(self) || S.Equal(ls.Term) {
 		preSized = true
 	}
+	usedBefore := map[string]bool{}
+	for u := range used {
+		usedBefore[u] = true
+	}
 	S = norm(S)
+	for u := range used {
+		if !usedBefore[u] {
+			v.UsedBySize = append(v.UsedBySize, u)
+		}
+	}
+	sort.Strings(v.UsedBySize)
 	E := norm(es.Extent)
 	v.L, v.S, v.E = L, S, E
 	v.Symbolic = L.Symbolic() || S.Symbolic() || E.Symbolic()
@@ -290,6 +305,7 @@ func (w *World) compareSize(k *Kind) *SizeVerdict {
 		usedL = append(usedL, u)
 	}
 	sort.Strings(usedL)
+	v.Used = usedL
 	how := ""
 	if len(usedL) > 0 {
 		how = " under {" + strings.Join(usedL, "; ") + "}"
@@ -503,4 +519,66 @@ func (w *World) parentBuildsChild(k *Kind, path string, c int64) bool {
 		}
 	}
 	return true
+}
+
+// builtRule: when the number of bytes an encoder produces depends on a fact only the kind's constructors
+// establish (a padding slice of 4 bytes that is appended as it stands), every value of the kind that the
+// module itself creates must come from a constructor. A decoder or dispatcher that allocates the kind with
+// new(T) hands out values that encode to a different size than they report.
+func builtRule(w *World, r *Report, rule string, sel func(k *Kind) bool) {
+	for _, k := range w.KindsL {
+		if k.Len == nil || k.Marshal == nil || !sel(k) {
+			continue
+		}
+		sv := w.compareSize(k)
+		var facts []string
+		for _, u := range sv.UsedBySize {
+			if strings.HasPrefix(u, "len(") {
+				facts = append(facts, u)
+			}
+		}
+		if len(facts) == 0 {
+			continue
+		}
+		ctors := map[*FuncInfo]bool{}
+		for _, c := range w.Constructors(k) {
+			ctors[c] = true
+		}
+		n := 0
+		for _, key := range w.sortedFuncKeys() {
+			fi := w.Funcs[key]
+			if ctors[fi] || fi.Decl.Body == nil {
+				continue
+			}
+			info := fi.Pkg.TypesInfo
+			ast.Inspect(fi.Decl.Body, func(nd ast.Node) bool {
+				var t types.Type
+				switch x := nd.(type) {
+				case *ast.CallExpr:
+					if id, ok := unparen(x.Fun).(*ast.Ident); ok && id.Name == "new" && len(x.Args) == 1 {
+						if _, isB := info.Uses[id].(*types.Builtin); isB {
+							t = info.TypeOf(x.Args[0])
+						}
+					}
+				case *ast.CompositeLit:
+					t = info.TypeOf(x)
+				}
+				if t == nil {
+					return true
+				}
+				if kk := w.KindOfType(t); kk != nil && kk.Name == k.Name {
+					n++
+					r.Fail(VViolation, rule, k.Name, fmt.Sprintf("alloc@%s#%d", fi.Key, n), w.Pos(nd.Pos()), fmt.Sprintf("%s creates a %s without its constructor, but the encoder produces a number of bytes that depends on %s, which only the constructor establishes: such a value (for instance a decoded one that is encoded again) encodes to a different size than it reports and declares", fi.Key, k.Name, strings.Join(facts, ", ")))
+				}
+				return true
+			})
+		}
+		if n == 0 {
+			pos := "-"
+			if fi := w.FuncOf(k.Marshal); fi != nil {
+				pos = w.Pos(fi.Decl.Pos())
+			}
+			r.OK(rule, k.Name, "built", pos, "the encoded size depends on "+strings.Join(facts, ", ")+"; every value of the kind created in the module comes from a constructor", true)
+		}
+	}
 }
